@@ -265,7 +265,7 @@ impl PropImpl for C17 {
          or the licence comes from the stand-alone fallback.".into()
     }
     fn budget(&self, tier: Tier) -> Budget {
-        Budget { cases_per_lane: if tier == Tier::Quick { 1500 } else { 30_000 }, tape_max: 500, cpu_s: 20 }
+        Budget { cases_per_lane: if tier == Tier::Quick { 3000 } else { 30_000 }, tape_max: 500, cpu_s: 20 }
     }
     fn spaces(&self, tier: Tier) -> Vec<Space> {
         let pl = if tier == Tier::Quick { 3 } else { 4 };
